@@ -117,7 +117,8 @@ class C18(core.Check):
         "one evaluation = one seeded history: a generated nested document (plain or Mapfile dicts, depth <= 4) "
         "followed by 1-8 operations, each a type-compatible patch applied with mappyfile.update (scalar "
         "replacements, new keys, nested merges, lists with None placeholders / extra items, '__delete__' "
-        "values and objects at keys, list positions and the root; both overwrite modes) or a find / findall / "
+        "values and objects at keys, list positions and the root; both overwrite modes; in a fifth of the histories "
+        "equal sub-patches are ONE object used at several places) or a find / findall / "
         "findunique / findkey query on an object list of the *current* d1 (values present, absent, prefix/"
         "suffix of another value, falsy, lists of values; items with and without the key; random key case). "
         "Compared with a reference implementation after every step (result, d1 state, identity of untouched "
